@@ -557,6 +557,8 @@ class C15(core.Check):
             urwid.set_encoding("utf-8")
 
     def run_impl(self, case):
+        if case.get("kind") == "attrspec":
+            return {"attrspec_got": self._attrspec_got(case)}
         ops = self._ops(case)
         steps, final, exc = self._run_ops(case, ops)
         if exc is not None:
@@ -699,6 +701,9 @@ class C15(core.Check):
 
     def _oracle(self, case, res):
         msgs = []
+        if case.get("kind") == "attrspec":
+            m = self._attrspec_msg(case, res.get("attrspec_got"))
+            return [m] if m else []
         if "malformed" in res:
             return ["malformed result " + str(res)]
         ops = self._ops(case)
@@ -883,6 +888,34 @@ class C15(core.Check):
         return "vt100[?]: " + final_diff + " (no single command shows the difference)"
 
     # ---------- the AttrSpec abstraction of the model, swept against the real AttrSpec ----------
+    ATTR_NAMES = ["bold", "underline", "blink", "standout"]
+
+    def _attrspec_got(self, case, t=None):
+        """what vterm.py reads back from the AttrSpec its sgi_to_attrspec builds for (fg, bg, flags, colors)"""
+        if t is None:
+            import urwid
+            from urwid import vterm
+            urwid.set_encoding("utf-8")
+            t = vterm.TermCanvas(2, 1, DummyWidget(vterm))
+        attrs = {self.ATTR_NAMES[i] for i in range(4) if case["flags"] >> i & 1}
+        try:
+            return attr_obs(t.sgi_to_attrspec([], case["fg"], case["bg"], set(attrs), case["colors"]))
+        except Exception as e:          # noqa: BLE001
+            return type(e).__name__
+
+    def _attrspec_msg(self, case, got):
+        fg, bg, colors, flags = case["fg"], case["bg"], case["colors"], case["flags"]
+        attrs = sorted(self.ATTR_NAMES[i] for i in range(4) if flags >> i & 1)
+        f2 = fg + 8 if (fg is not None and flags & 1 and colors == 16 and fg < 8) else fg
+        if f2 is None and bg is None and not flags:
+            want = None
+        else:
+            want = [f2, bg, 1 if (f2 is None and bg is None) else colors] + [flags >> i & 1 for i in range(4)]
+        if got != want:
+            return (f"AttrSpec abstraction: sgi_to_attrspec([], {fg}, {bg}, {attrs}, {colors}) reads back {got}, "
+                    f"the model says {want}")
+        return None
+
     def extra_checks(self, tier, rng, ev):
         """Model/VTerm.v: mk_attrspec claims that vterm.py reads back from the AttrSpec it builds exactly the colour
         numbers it put in (derived .colors: 1 when both colours are default), for every colour number that fits the
@@ -892,27 +925,16 @@ class C15(core.Check):
         from urwid import vterm
         urwid.set_encoding("utf-8")
         t = vterm.TermCanvas(2, 1, DummyWidget(vterm))
-        names = ["bold", "underline", "blink", "standout"]
         out = []
         n = 0
 
         def one(fg, bg, colors, flags):
             nonlocal n
             n += 1
-            attrs = {names[i] for i in range(4) if flags >> i & 1}
-            try:
-                a = t.sgi_to_attrspec([], fg, bg, set(attrs), colors)
-                got = attr_obs(a)
-            except Exception as e:          # noqa: BLE001
-                got = type(e).__name__
-            f2 = fg + 8 if (fg is not None and flags & 1 and colors == 16 and fg < 8) else fg
-            if f2 is None and bg is None and not flags:
-                want = None
-            else:
-                want = [f2, bg, 1 if (f2 is None and bg is None) else colors] + [flags >> i & 1 for i in range(4)]
-            if got != want and len(out) < 5:
-                out.append(({"kind": "attrspec", "fg": fg, "bg": bg, "colors": colors, "flags": flags},
-                            f"AttrSpec abstraction: sgi_to_attrspec([], {fg}, {bg}, {sorted(attrs)}, {colors}) reads back {got}, the model says {want}"))
+            case = {"kind": "attrspec", "fg": fg, "bg": bg, "colors": colors, "flags": flags}
+            msg = self._attrspec_msg(case, self._attrspec_got(case, t))
+            if msg and len(out) < 5:
+                out.append((case, msg))
         for flags in range(16):
             one(None, None, 1, flags)
             for fg in [None] + list(range(16)):
@@ -1194,6 +1216,8 @@ class C15(core.Check):
             yield self.random_ref_case(rng)
 
     def shrink_candidates(self, case):
+        if case.get("kind") == "attrspec":
+            return
         if case.get("kind", "vt") == "ref":
             cmds = case["cmds"]
             for i in range(len(cmds) - 1, -1, -1):
